@@ -24,7 +24,7 @@
 
 __doc__="""Use OpenDocument to generate your documents."""
 
-import zipfile, time, uuid, sys, mimetypes, copy, os.path
+import zipfile, time, uuid, sys, mimetypes, copy, os.path, re
 
 # to allow Python3 to access modules in the same path
 sys.path.append(os.path.dirname(__file__))
@@ -561,19 +561,48 @@ class OpenDocument:
         """
         Adds an object (subdocument). The object must be an OpenDocument class
         @param document OpenDocument instance
-        @param objectname unicode string: the name of an object to add
+        @param objectname unicode string: the name of the object's folder inside
+        the folder of this document (a leading "/" is ignored); defaults to the
+        first free "Object <n>". A name already in use raises ValueError.
         @return a unicode string: the folder name in the zipfile the object is
-        stored in.
+        stored in. The objects already attached to document move with it.
         """
         assert(isinstance(document, OpenDocument))
         assert(type(objectname)==type(u"") or objectname == None)
 
-        self.childobjects.append(document)
+        if document.folder != u"" or document is self:
+            raise ValueError(u"The document is already attached (as %s)" % document.folder)
+        used = [c.folder[len(self.folder)+1:] for c in self.childobjects]
         if objectname is None:
-            document.folder = u"%s/Object %d" % (self.folder, len(self.childobjects))
-        else:
-            document.folder = objectname
+            n = len(self.childobjects) + 1
+            while u"Object %d" % n in used:
+                n += 1
+            objectname = u"Object %d" % n
+        objectname = objectname.lstrip(u"/")
+        if objectname in used:
+            raise ValueError(u"There is already an object named '%s'" % objectname)
+        self.childobjects.append(document)
+        document._setFolder(u"%s/%s" % (self.folder, objectname))
         return u".%s" % document.folder
+
+    def _setFolder(self, folder):
+        """
+        Sets the folder save() stores this (sub)document in; its own objects follow
+        @param folder unicode string: u"" for a toplevel document, else u"/Object 1/..."
+        """
+        for c in self.childobjects:
+            c._setFolder(folder + c.folder[len(self.folder):])
+        self.folder = folder
+
+    def _allExtras(self, anObject):
+        """
+        @return the pairs (folder, opaque object) of anObject and its subobjects
+        """
+        folder = u"" if anObject == self else anObject.folder[len(self.folder)+1:] + u"/"
+        pairs = [(folder, op) for op in anObject._extra]
+        for subobject in anObject.childobjects:
+            pairs += self._allExtras(subobject)
+        return pairs
 
     def _savePictures(self, anObject, folder):
         """
@@ -600,10 +629,8 @@ class OpenDocument:
 #       if hasPictures:
 #           self.manifest.addElement(manifest.FileEntry(fullpath="%sPictures/" % folder, mediatype=""))
         # Look in subobjects
-        subobjectnum = 1
         for subobject in anObject.childobjects:
-            self._savePictures(subobject, u'%sObject %d/' % (folder, subobjectnum))
-            subobjectnum += 1
+            self._savePictures(subobject, subobject.folder[len(self.folder)+1:] + u'/')
 
     def __replaceGenerator(self):
         """
@@ -678,13 +705,13 @@ class OpenDocument:
             self._z.writestr(zi, self.thumbnail)
 
         # Write any extra files
-        for op in self._extra:
+        for folder, op in self._allExtras(self):
             if op.filename == u"META-INF/documentsignatures.xml": continue # Don't save signatures
-            self.manifest.addElement(manifest.FileEntry(fullpath=op.filename, mediatype=op.mediatype))
+            self.manifest.addElement(manifest.FileEntry(fullpath=folder + op.filename, mediatype=op.mediatype))
             if sys.version_info[0]==3:
-                zi = zipfile.ZipInfo(op.filename, self._now)
+                zi = zipfile.ZipInfo(folder + op.filename, self._now)
             else:
-                zi = zipfile.ZipInfo(op.filename.encode('utf-8'), self._now)
+                zi = zipfile.ZipInfo((folder + op.filename).encode('utf-8'), self._now)
             zi.compress_type = zipfile.ZIP_DEFLATED
             zi.external_attr = UNIXPERMS
             if op.content is not None:
@@ -743,10 +770,8 @@ class OpenDocument:
             self._z.writestr(zi, anObject.metaxml().encode("utf-8") )
 
         # Write subobjects
-        subobjectnum = 1
         for subobject in anObject.childobjects:
-            self._saveXmlObjects(subobject, u'%sObject %d/' % (folder, subobjectnum))
-            subobjectnum += 1
+            self._saveXmlObjects(subobject, subobject.folder[len(self.folder)+1:] + u'/')
 
 # Document's DOM methods
     def createElement(self, elt):
@@ -1039,28 +1064,35 @@ def load(odffile):
     manifestpart = z.read('META-INF/manifest.xml')
     manifest =  manifestlist(manifestpart)
     __loadxmlparts(z, manifest, doc, u'')
+    subdocs = {u'': doc} # folder in the package -> (sub)document
     for mentry,mvalue in manifest.items():
-        if mentry[:9] == u"Pictures/" and len(mentry) > 9:
-            doc.addPicture(mvalue['full-path'], mvalue['media-type'], z.read(mentry))
+        # The entry belongs to the subobject of the longest chain of listed "Object <n>/" folders
+        objectpath = u''
+        while True:
+            m = re.match(u"Object [0-9]+/", mentry[len(objectpath):])
+            if m is None or objectpath + m.group(0) not in manifest:
+                break
+            if objectpath + m.group(0) not in subdocs:
+                subdoc = OpenDocument(manifest[objectpath + m.group(0)]['media-type'], add_generator=False)
+                subdocs[objectpath].addObject(subdoc, u"/" + m.group(0)[:-1])
+                __loadxmlparts(z, manifest, subdoc, objectpath + m.group(0))
+                subdocs[objectpath + m.group(0)] = subdoc
+            objectpath += m.group(0)
+        target, name = subdocs[objectpath], mentry[len(objectpath):]
+        if name[:9] == u"Pictures/" and len(name) > 9:
+            target.addPicture(name, mvalue['media-type'], z.read(mentry))
         elif mentry == u"Thumbnails/thumbnail.png":
             doc.addThumbnail(z.read(mentry))
             doc._thumbnail_mediatype = mvalue['media-type']    # re-listed as the source listed it
-        elif mentry in (u'settings.xml', u'meta.xml', u'content.xml', u'styles.xml'):
-            pass
+        elif name in (u'settings.xml', u'content.xml', u'styles.xml', u'') or mentry == u'meta.xml':
+            pass # parsed above (the meta.xml of a subobject is kept as it is: save() writes none)
         elif mentry in (u'/', u'Thumbnails/', u'mimetype', u'META-INF/manifest.xml'):
             pass # written afresh by save(); keeping them as extras would list them twice
-        # Load subobjects into structure
-        elif mentry[:7] == u"Object " and len(mentry) < 11 and mentry[-1] == u"/":
-            subdoc = OpenDocument(mvalue['media-type'], add_generator=False)
-            doc.addObject(subdoc, u"/" + mentry[:-1])
-            __loadxmlparts(z, manifest, subdoc, mentry)
-        elif mentry[:7] == u"Object ":
-            pass # Don't load subobjects as opaque objects
         else:
-            if mvalue['full-path'][-1] == u'/':
-                doc._extra.append(OpaqueObject(mvalue['full-path'], mvalue['media-type'], None))
+            if name[-1] == u'/':
+                target._extra.append(OpaqueObject(name, mvalue['media-type'], None))
             else:
-                doc._extra.append(OpaqueObject(mvalue['full-path'], mvalue['media-type'], z.read(mentry)))
+                target._extra.append(OpaqueObject(name, mvalue['media-type'], z.read(mentry)))
             # Add the SUN junk here to the struct somewhere
             # It is cached data, so it can be out-of-date
     z.close()
